@@ -11,6 +11,9 @@ func capturedAssigned(lit *ast.FuncLit, info *types.Info) []types.Object {
 	seen := map[types.Object]bool{}
 	var out []types.Object
 	add := func(e ast.Expr) {
+		if throughPointer(e, info) {
+			return // p.f = ... writes the object p points to, not the variable p
+		}
 		id := rootIdent(e)
 		if id == nil {
 			return
@@ -66,6 +69,14 @@ func capturedAssigned(lit *ast.FuncLit, info *types.Info) []types.Object {
 // of times, now or later, so every captured variable they assign becomes
 // unknown now and at every later yield point.
 func (v *FnV) escapeClosures(st *State, args []Value) {
+	for _, a := range args {
+		v.closureInvariant(st, a, "before")
+	}
+	defer func() {
+		for _, a := range args {
+			v.closureInvariant(st, a, "after")
+		}
+	}()
 	for _, a := range args {
 		cr, ok := v.closures[a.S]
 		if !ok {
